@@ -11,7 +11,7 @@ from bec2format.bf3file import Bf3File
 LEVEL = "exploration"
 RULE = ("E1: ('core', len, zrun, decl, sink, cmac) = full product of every payload length 1..N x trailing-0x00 run "
         "{0,1,2,15,16,17} x declared {len,1} x {stream,path} x MAC check {on,off} for one component; ('dev', vector) = every "
-        "vector with <= d non-default coordinates over 17 dimensions (comment map, component count 0..3, per-slot tag "
+        "vector with <= d non-default coordinates (d = 3 quick, 4 thorough) over 17 dimensions (comment map, component count 0..3, per-slot tag "
         "layout / payload length / zero run / declared length, session key, sink, MAC checking). Each case writes a real "
         "Bf3File, reads the text back through the same kind of sink and compares comments, tag descriptions, blobs, "
         "declared lengths, flags, and write(read(write(x))) == write(x). Distinct = distinct case vectors; non-trivial = "
@@ -76,7 +76,7 @@ def cases(ctx):
                 for sink in ("stream", "path"):
                     yield ("core", ln, z, dm, sink, True)
             yield ("core", ln, z, "len", "stream", False)
-    for v in deviations(DIMS, 3):
+    for v in deviations(DIMS, 3 if ctx.quick else 4):
         yield ("dev",) + v
 
 
